@@ -186,16 +186,31 @@ func c16Run(c c16Case, st *fw.Stats) []fw.Viol {
 		if seenOrders[wantKey] {
 			continue
 		}
-		for draw := 0; draw < 400 && !seenOrders[wantKey]; draw++ {
-			// drive Go's map order: insertion order = the wanted order (unimplemented actions first)
+		// Uses() has keys for unimplemented actions too, and those are invisible in the debug print: their position
+		// in the iteration is varied by extra draws (Go starts a small map's iteration at a random slot)
+		minDraws := 1
+		if c.Uses && len(impl) < len(c16Actions) {
+			minDraws = 10
+		}
+		for draw := 0; (draw < minDraws || !seenOrders[wantKey]) && draw < 400; draw++ {
+			// drive Go's map order through the insertion order: the wanted order of the implemented actions,
+			// the unimplemented ones before them (even draws) or after them (odd draws)
 			m := map[string][]string{}
-			for _, a := range c16Actions {
-				if c.Mask>>indexOf(c16Actions, a)&1 == 0 {
-					m[a] = orig[a]
+			unimpl := func() {
+				for _, a := range c16Actions {
+					if c.Mask>>indexOf(c16Actions, a)&1 == 0 {
+						m[a] = orig[a]
+					}
 				}
+			}
+			if draw%2 == 0 {
+				unimpl()
 			}
 			for _, a := range want {
 				m[a] = orig[a]
+			}
+			if draw%2 == 1 {
+				unimpl()
 			}
 			rux.RESTFulActions = m
 			var buf bytes.Buffer
@@ -230,6 +245,10 @@ func c16Run(c c16Case, st *fw.Stats) []fw.Viol {
 			}
 			gotKey := strings.Join(got, ",")
 			st.Inc("registrations", 1)
+			// the registered table is compared on every draw (cheap); the request probes once per distinct order
+			if !c16CheckTable(r, c, desc+fmt.Sprintf(", registration order %v", got), impl, resPath, resName, add) {
+				return vs
+			}
 			if seenOrders[gotKey] {
 				continue
 			}
@@ -276,8 +295,8 @@ func routeSet(r *rux.Router) []string {
 	return out
 }
 
-func c16CheckRouter(r *rux.Router, rec *c16Rec, c c16Case, desc string, impl []string, resPath, resName string, tb *refmodel.Table, defAction []string, st *fw.Stats, add func(sig, msg string)) {
-	// (1) Routes() / NamedRoutes() = the documented table, exactly
+// c16CheckTable: Routes() / NamedRoutes() = the documented table, exactly
+func c16CheckTable(r *rux.Router, c c16Case, desc string, impl []string, resPath, resName string, add func(sig, msg string)) bool {
 	var want []string
 	for _, a := range impl {
 		ms := append([]string(nil), c16Table[a].methods...)
@@ -292,18 +311,24 @@ func c16CheckRouter(r *rux.Router, rec *c16Rec, c c16Case, desc string, impl []s
 	got := routeSet(r)
 	if strings.Join(got, "; ") != strings.Join(want, "; ") {
 		add("resource:table", fmt.Sprintf("%s: registered routes [%s], documented table [%s]", desc, strings.Join(got, "; "), strings.Join(want, "; ")))
-		return
+		return false
 	}
 	named := r.NamedRoutes()
 	if len(named) != len(impl) {
 		add("resource:names", fmt.Sprintf("%s: %d named routes, expected %d", desc, len(named), len(impl)))
+		return false
 	}
 	for _, a := range impl {
 		n := resName + "_" + strings.ToLower(a)
 		if rt := named[n]; rt == nil || rt.Path() != resPath+c16Table[a].path {
 			add("resource:names", fmt.Sprintf("%s: named route %q missing or wrong", desc, n))
+			return false
 		}
 	}
+	return true
+}
+
+func c16CheckRouter(r *rux.Router, rec *c16Rec, c c16Case, desc string, impl []string, resPath, resName string, tb *refmodel.Table, defAction []string, st *fw.Stats, add func(sig, msg string)) {
 	// (2) every method x probe path answers as the table says, and nothing else is reachable
 	probes := []string{resPath, resPath + "/create", resPath + "/7", resPath + "/7/edit", resPath + "/create/edit", resPath + "/7/x", "/", resPath + "x"}
 	for _, m := range refmodel.Methods {
@@ -346,6 +371,8 @@ var c16Spec = fw.Spec[c16Case]{
 	ID:      "C16",
 	Level:   "model_checking",
 	Workers: 1,
+	// the only nondeterminism is Go's map iteration order inside Resource (code under test): a confirmation replay may be retried
+	ReplayAttempts: 40,
 	Rule: "complete enumeration: all 128 subsets of the seven actions as controller method sets (generated types) x with/without Uses() (distinct middleware for every action, implemented or not) x base in {/, /api/, \"\"} x inside/outside a group; registration order inside Resource is Go map order: it is DRIVEN through the insertion order of the exported rux.RESTFulActions and OBSERVED from rux's own debug print, and registration is repeated until every permutation of the implemented actions (k<=4; all rotations of two base orders for k>4) has been observed; " +
 		"per observed order: Routes()/NamedRoutes() equal the documented table exactly, all 9 methods x 8 probe paths dispatch as the reference resolver says over that table (create never served by show, nothing else reachable), per-action middleware runs only for its action; non-pointer / non-struct / wrong-shaped controllers; non-trivial = a distinct (subset, order) registration",
 	Assume: []string{"runs single-threaded: RESTFulActions, the debug switch and the colour output are process-global", "Go's small-map iteration starts at a random offset of the insertion order; an order not seen within 400 draws is reported as a cap, never as a violation"},
